@@ -17,7 +17,7 @@ RULE = ('Hypothesis: datastore layout + a valid request history (as C04) followe
         'vlib/model.classify gives the set of acceptable outcomes (exception 01/02/03, or normal -> exact response + state); '
         'the exception must carry fc|0x80; whenever the real answer is an exception all four tables are unchanged; datastore '
         'failure -> exception 04. Two simultaneous faults: either applicable code accepted. Non-trivial: request the model '
-        'rejects, or a boundary-valid request (quantity = max or last cell of a run); distinct by SHA-1.')
+        'rejects, or a boundary-valid request (quantity = max or last cell of a run); distinct by SHA-1. Raising datastores raise exceptions of several shapes (no / one / several arguments, custom class, \'%\' in the text). A PDU whose length contradicts its own byte-count field may also be refused by the decoder.')
 ASSUMPTIONS = ['data fields are always long enough for the decoder (shorter PDUs are malformed input, C12)',
                'Twisted/asyncio exception-escape semantics as modelled in vlib/frontends.py']
 BUDGET = {'quick': 4000, 'thorough': 20000}
